@@ -860,7 +860,23 @@ def oracle_case(params, evlines):
         if b_:
             break
         idle_tail += 1
-    drained = idle_tail >= 2 * info["cap"] + 8
+    # "drained" = the producer has been idle with the consumer ready long enough for the capacity AND the output has fallen silent:
+    # a chain that is still delivering at the end of the trace (e.g. a depth-1 fifo with latency >= 3 passes one beat every 6
+    # cycles) is not stuck, its drain simply has not finished -- nothing can be concluded about missing beats yet
+    lat_sum = 0
+    for k_, a_ in stages:
+        lat_sum += (1 if k_ in ("rd", "rb", "rr") else 2 if k_ == "dc" else a_ if k_ == "dl" else 2 if k_ in ("ff", "fz") else
+                    max(2, a_ // 100) if k_ in ("fe", "fl", "fm") else 0)
+    quiet_needed = max(16, 4 * (lat_sum + 2))
+    quiet = 0
+    for l in reversed(evlines):
+        pe = parse_ev(l)
+        if pe["vo"] == "1" and pe["r"]:
+            break
+        quiet += 1
+    drained = idle_tail >= 2 * info["cap"] + 8 and quiet >= min(quiet_needed, max(1, idle_tail - 1))
+    if idle_tail >= 2 * info["cap"] + 8 and not drained:
+        st["drain_not_finished_output_still_flowing"] += 1
     if ebmode and expose:
         # single Packet.h widthReduce on a shape where its EmptyBits output is known to be wrong (K_PR_EMPTY): everything but
         # the emptyBits value must be right; the emptyBits value must be either right or exactly the known wrong formula
